@@ -228,28 +228,46 @@ def rule_correspondence(repo, rule):
     else:
         rule.violation(inv.loc(), inv.fq, "~a = %s" % p, "logical not is not 1 - a", "bool/__invert__")
     # ---- shifts, abs, pow
+    from ..bykind import returns_by_kind
+    KINDS = {"int": ("int",), "secret": ("LinComb",)}
     ls, rs = lc.methods["__lshift__"], lc.methods["__rshift__"]
     s_, o_ = ls.params
-    txt = norm(ls.node.body)
-    if "%s * (1 << %s)" % (s_, o_) in txt and "%s * 2 ** %s" % (s_, o_) in txt:
+    POW = P.sym("2^k")
+    penv = {s_: P.sym("x"), "1 << %s" % o_: POW, "2 ** %s" % o_: POW}
+    got = returns_by_kind(ls, o_, KINDS)
+    bad = []
+    for kind in KINDS:
+        vals = [(r, e) for r, e in got[kind] if norm(e) != "NotImplemented"]
+        if not vals:
+            bad.append((ls.node, "%s count: no value returned" % kind))
+        for r, e in vals:
+            p = poly_of(e, penv, strict=True)
+            if p is None or p != P.sym("x") * POW:
+                bad.append((r, "%s count: returns %s" % (kind, norm(e))))
+    if not bad:
         rule.ok(ls.loc(), ls.fq, "x << k = x * 2^k (public and secret k)")
     else:
-        rule.violation(ls.loc(), ls.fq, txt[:120], "left shift is not multiplication by 2^k", "shift/left")
+        rule.violation(ls.loc(bad[0][0]), ls.fq, "; ".join(b_[1] for b_ in bad)[:160], "left shift is not multiplication by 2^k", "shift/left")
     s_, o_ = rs.params
-    txt = norm(rs.node.body)
-    ok_int = "bits[%s:]" % o_ in txt.replace("wanted_bits = ", "").replace(" ", "") or "[%s:]" % o_ in txt
-    ok_lc = "%s // 2 ** %s" % (s_, o_) in txt
-    if ok_int and ok_lc and "from_bits" in txt:
+    got = returns_by_kind(rs, o_, KINDS)
+    ivals = {norm(e).replace(" ", "") for _r, e in got["int"] if norm(e) != "NotImplemented"}
+    svals = {norm(e).replace(" ", "") for _r, e in got["secret"] if norm(e) != "NotImplemented"}
+    ok_int = ivals and ivals <= {"LinComb.from_bits(%s.to_bits()[%s:])" % (s_, o_)}
+    ok_lc = svals and svals <= {"%s//2**%s" % (s_, o_), "%s//(1<<%s)" % (s_, o_)}
+    if ok_int and ok_lc:
         rule.ok(rs.loc(), rs.fq, "x >> k = recompose(bits[k:]) / x // 2^k")
     else:
-        rule.violation(rs.loc(), rs.fq, txt[:140], "right shift does not drop exactly the k low bits", "shift/right")
+        rule.violation(rs.loc(), rs.fq, "int: %s; secret: %s" % (sorted(ivals), sorted(svals)), "right shift does not drop exactly the k low bits",
+                       "shift/right")
     ab = lc.methods["__abs__"]
     rr = rets_of(ab)
     s_ = ab.params[0]
-    if rr and norm(rr[0].value) in ("if_then_else(%s >= 0, %s, -%s)" % (s_, s_, s_), "if_then_else(%s < 0, -%s, %s)" % (s_, s_, s_)):
-        rule.ok(ab.loc(), ab.fq, norm(rr[0].value))
+    from ..flatten import resolve_locals as _rl
+    at = norm(_rl(ab.node, rr[0].value)) if rr else ""
+    if at in ("if_then_else(%s >= 0, %s, -%s)" % (s_, s_, s_), "if_then_else(%s < 0, -%s, %s)" % (s_, s_, s_)):
+        rule.ok(ab.loc(), ab.fq, at)
     else:
-        rule.violation(ab.loc(), ab.fq, norm(rr[0].value) if rr else "", "abs is not select(x >= 0, x, -x)", "abs")
+        rule.violation(ab.loc(), ab.fq, at, "abs is not select(x >= 0, x, -x)", "abs")
     pw = lc.methods["__pow__"]
     s_, o_ = pw.params[0], pw.params[1]
     txt = norm(pw.node.body)
@@ -406,7 +424,14 @@ def rule_no_reduction(repo, rule):
         for name, fi in sorted(ci.methods.items()):
             if not (name.startswith("__") and name.endswith("__")):
                 continue
-            for st in ast.walk(fi.node):
+            k_in_op = 0
+            sts = sorted((x for x in ast.walk(fi.node) if isinstance(x, (ast.AugAssign, ast.Assign))),
+                         key=lambda x: (getattr(x, "lineno", 0), getattr(x, "col_offset", 0)))
+            # order of execution inside the operator = order in the flattened body (inlined helpers keep their own line numbers)
+            order = {id(x): i for i, x in enumerate(x for x in ast.walk(ast.Module(body=fi.node.body, type_ignores=[]))
+                                                    if isinstance(x, (ast.AugAssign, ast.Assign)))}
+            sts.sort(key=lambda x: order.get(id(x), 0))
+            for st in sts:
                 tgt = None
                 if isinstance(st, ast.AugAssign) and isinstance(st.op, ast.Mod):
                     tgt = st.target
@@ -414,9 +439,10 @@ def rule_no_reduction(repo, rule):
                     tgt = st.targets[0]
                 if tgt is not None and isinstance(tgt, ast.Attribute) and tgt.attr == "value":
                     n += 1
+                    k_in_op += 1
                     rule.violation(fi.loc(st), fi.fq, norm(st), "the reported value of `%s` is reduced into [0, p): for a negative (or "
                                    ">= p) result it differs from the value Python computes" % name.strip("_"),
-                                   "%s/reduce/%s" % (fi.fq, norm(tgt)))
+                                   "%s/reduce/#%d" % (fi.fq, k_in_op))
     ops = sum(1 for mod, cn in ((RT, "LinComb"), ("pysnark.boolean", "LinCombBool")) for nm in repo.cls(mod, cn).methods
               if nm.startswith("__") and nm.endswith("__"))
     rule.ok("%s" % RT, "operators", "%d operator methods scanned, %d in-place reductions of a reported value" % (ops, n))
